@@ -126,4 +126,453 @@ Section M.
   Definition afterT (cf : nat) (k : Z -> list value -> list obs * mres) (next : Z) (r : rco) (pidx : Z) (v : value)
                     (h : Z) (stk : list value) : list obs * mres :=
     if tmatches r v then climbP cf k (Some pidx) v stk else store_at P k next (h - 1) v stk.
+
+  Notation afterT' := afterT.
+
+  Lemma store_ok k next h v s x : lenZ s = h -> 0 <= h -> h < alloc P ->
+    store_at P k next (h - 1) v (s ++ x) = k next (s ++ [v]).
+  Proof.
+    intros Hs Hh Ha. unfold store_at. rewrite lenZ_app. pose proof (lenZ_nonneg x).
+    replace ((h - 1 + 1 <? 0) || (lenZ s + lenZ x <? h - 1 + 1)) with false by lia.
+    replace (h - 1 + 1) with (lenZ s) by lia. rewrite firstnZ_app_all. unfold push. replace (lenZ s <? alloc P) with true by lia. reflexivity.
+  Qed.
+
+  Definition sub_try (t : tree) : Prop :=
+    forall base h inh anc mf mt pidx r KR stk (cb : nat),
+      placed (nodes P) base (map fst (comp lastI t base h inh anc mf mt pidx r)) ->
+      placedZ (parents P) base (map snd (comp lastI t base h inh anc mf mt pidx r)) ->
+      0 <= h -> lenZ stk = h -> (cb + size t <= length (nodes P))%nat ->
+      (forall v cf f x, (cb <= cf)%nat -> (need (base + Z.of_nat (size t)) <= f)%nat ->
+         afterT cf (tryrun f) (base + Z.of_nat (size t)) r pidx v h (stk ++ x) = KR v) ->
+      forall f, (need base <= f)%nat -> tryrun f base stk = bindT (trysem t) KR.
+
+  Lemma tryrun_S f i stk : tryrun (S f) i stk =
+    if psize P <=? i then ([], match stk with v :: _ => MVal v | [] => MPanic 1 end) else
+    match getn i with
+    | None => ([], MPanic 2)
+    | Some nd =>
+      let go := tclimb (length (nodes P)) (tryrun f) in
+      match kind nd with
+      | KFast name =>
+        match getn (i + 1), getn (i + 2) with
+        | Some a, Some b =>
+          match tleaf fetch cached a with
+          | (t1, Err e) => (t1, MErr e)
+          | (t1, Ok va) =>
+            match tleaf fetch cached b with
+            | (t2, Err e) => (t1 ++ t2, MErr e)
+            | (t2, Ok vb) =>
+              match tproxy custom nd name true [va; vb] with
+              | (t3, Err e) => (t1 ++ t2 ++ t3, MErr e)
+              | (t3, Ok v) => preM (t1 ++ t2 ++ t3) (go (i + 2) nd v (lenZ stk - 1) stk)
+              end
+            end
+          end
+        | _, _ => ([], MPanic 3)
+        end
+      | KVar _ _ =>
+        match tleaf fetch cached nd with
+        | (t1, Err e) => (t1, MErr e)
+        | (t1, Ok v) => preM t1 (go i nd v (lenZ stk - 1) stk)
+        end
+      | KConst v => go i nd v (lenZ stk - 1) stk
+      | KOp name =>
+        let cnt := childCnt nd in
+        if (cnt <? 0) || (lenZ stk <? cnt) then ([], MPanic 4) else
+        let keep := Z.to_nat (lenZ stk - cnt) in
+        match tproxy custom nd name false (skipn keep stk) with
+        | (t1, Err e) => (t1, MErr e)
+        | (t1, Ok v) => preM t1 (go i nd v (Z.of_nat keep - 1) (firstn keep stk))
+        end
+      | KIf =>
+        match rev stk with
+        | [] => ([], MPanic 5)
+        | c :: below =>
+          match c with
+          | VBool true => tryrun f (i + 1) (rev below)
+          | VBool false =>
+            if (osTop nd + 1 <? 0) || (lenZ below <? osTop nd + 1) then ([], MPanic 6)
+            else tryrun f (scIdx nd + 1) (firstnZ (osTop nd + 1) (rev below))
+          | _ => ([], MErr ECondNotBool)
+          end
+        end
+      | KFi =>
+        match stk with
+        | [] => ([], MPanic 7)
+        | _ =>
+          if (osTop nd + 1 <? 0) || (lenZ stk <? osTop nd + 1) then ([], MPanic 8)
+          else tryrun f (scIdx nd + 1) (firstnZ (osTop nd + 1) stk)
+        end
+      | KEvent pos of => preM [OLoop pos of stk] (tryrun f (i + 1) stk)
+      end
+    end.
+  Proof. reflexivity. Qed.
+
+  Lemma tleaf_leaf t cnt fl tg h r : is_leaf t = true ->
+    tleaf fetch cached (mk lastI (leaf_kind t) cnt fl tg h r) =
+      (map e2o (fst (tleaf_val fetch cached t)), snd (tleaf_val fetch cached t)).
+  Proof. destruct t as [v|n k| |]; try discriminate; intros _; cbn [leaf_kind tleaf kind mk tleaf_val]; [reflexivity|]. destruct (cached n k); reflexivity. Qed.
+
+  Lemma tproxy_proxy nd name fast args : (kind nd = KOp name \/ kind nd = KFast name) ->
+    tproxy custom nd name fast args = (map e2o (fst (proxy custom name fast args)), snd (proxy custom name fast args)).
+  Proof.
+    intros Hk. unfold tproxy, proxy.
+    assert (E1 : is_boolname_and (kind nd) = is_and name) by (destruct Hk as [-> | ->]; reflexivity).
+    assert (E2 : is_boolname_or (kind nd) = is_or name) by (destruct Hk as [-> | ->]; reflexivity).
+    rewrite E1, E2. destruct (is_and name && existsb is_false args); [reflexivity|].
+    destruct (is_or name && existsb is_true args); [reflexivity|]. destruct (existsb is_dne args); reflexivity.
+  Qed.
+
+  (* a root node that has produced v: one step of the loop is the decoration-indexed continuation *)
+  Lemma go_afterT f i nd v h stk r pidx : tflag nd = r -> parent_of P i = Some pidx -> (1 <= length (nodes P))%nat ->
+    tclimb (length (nodes P)) (tryrun f) i nd v (h - 1) stk = afterT (length (nodes P) - 1) (tryrun f) (i + 1) r pidx v h stk.
+  Proof.
+    intros Hr Hp Hn. destruct (length (nodes P)) as [|n] eqn:E; [lia|]. rewrite tclimb_S.
+    unfold afterT, tmatch. rewrite Hr, Hp. replace (S n - 1)%nat with n by lia. reflexivity.
+  Qed.
+
+  Lemma nodes_pos base code : placed (nodes P) base code -> code <> [] -> (1 <= length (nodes P))%nat.
+  Proof. intros (pre & post & E & _) Hn. rewrite E, !app_length. destruct code; [congruence|]. cbn [length]. lia. Qed.
+
+  (* ---------- leaves ---------- *)
+
+  Lemma leaf_try t : is_leaf t = true -> sub_try t.
+  Proof.
+    intros Hl base h inh anc mf mt pidx r KR stk cb Hpl Hpp Hh Hs Hcb Hroot f Hf.
+    assert (Hsz : size t = 1%nat) by (apply leaf_size; exact Hl). rewrite Hsz in *.
+    assert (Hn1 : (1 <= length (nodes P))%nat) by lia.
+    destruct t as [v|n k| |]; try discriminate; cbn [comp map fst snd] in Hpl, Hpp;
+      apply placed_cons in Hpl; destruct Hpl as [G _]; apply placedZ_cons in Hpp; destruct Hpp as [Gp _];
+      pose proof (nthZ_range _ _ _ G) as R;
+      (destruct f as [|f']; [unfold EvalDefs.need in Hf; lia|]);
+      rewrite tryrun_S; unfold psize; replace (L <=? base) with false by lia;
+      unfold Run.getn; rewrite G; cbn [kind mk]; cbv zeta.
+    - rewrite Hs. rewrite (go_afterT f' base _ v h stk r pidx (tflag_mk _ _ _ _ _ _ _) Gp Hn1).
+      cbn [Tree.trysem tleaf_val bindT map]. rewrite preM_nil.
+      rewrite <- (app_nil_r stk) at 1. replace (base + 1) with (base + Z.of_nat 1) by lia.
+      apply Hroot; [lia|unfold EvalDefs.need in *; lia].
+    - cbn [Tree.trysem tleaf_val]. unfold tleaf. cbn [kind mk]. destruct (cached n k).
+      + destruct (fetch n k) as [v|e]; cbn [bindT map e2o]; [|reflexivity]. f_equal.
+        rewrite Hs. rewrite (go_afterT f' base _ v h stk r pidx (tflag_mk _ _ _ _ _ _ _) Gp Hn1).
+        rewrite <- (app_nil_r stk) at 1. replace (base + 1) with (base + Z.of_nat 1) by lia.
+        apply Hroot; [lia|unfold EvalDefs.need in *; lia].
+      + cbn [bindT map]. f_equal.
+        rewrite Hs. rewrite (go_afterT f' base _ VDNE h stk r pidx (tflag_mk _ _ _ _ _ _ _) Gp Hn1).
+        rewrite <- (app_nil_r stk) at 1. replace (base + 1) with (base + Z.of_nat 1) by lia.
+        apply Hroot; [lia|unfold EvalDefs.need in *; lia].
+  Qed.
+
+  Lemma bindT_preR tr x K : bindT (preR tr x) K = preM (map e2o tr) (bindT x K).
+  Proof.
+    destruct x as [tr2 [v|e]]; unfold preR, bindT; cbn [fst snd]; rewrite map_app.
+    - rewrite preM_app. reflexivity.
+    - unfold preM. reflexivity.
+  Qed.
+
+  (* ---------- fast operators ---------- *)
+
+  Lemma fast_try name a b : fast_shape true [a; b] = true -> sub_try (TOp name true [a; b]).
+  Proof.
+    intros Hfs base h inh anc mf mt pidx r KR stk cb Hpl Hpp Hh Hs Hcb Hroot f Hf.
+    destruct (fast_shape_inv _ _ Hfs) as (a' & b' & E & Ha & Hb & _). inversion E; subst a' b'. clear E.
+    rewrite comp_fast_unfold in Hpl, Hpp by exact Hfs. cbv zeta in Hpl, Hpp. cbn [map fst snd] in Hpl, Hpp.
+    apply placed_cons in Hpl. destruct Hpl as [G0 Hpl]. apply placed_cons in Hpl. destruct Hpl as [G1 Hpl]. apply placed_cons in Hpl. destruct Hpl as [G2 _].
+    apply placedZ_cons in Hpp. destruct Hpp as [Q0 Hpp]. apply placedZ_cons in Hpp. destruct Hpp as [_ Hpp]. apply placedZ_cons in Hpp. destruct Hpp as [Q2 _].
+    replace (base + 1 + 1) with (base + 2) in * by lia.
+    pose proof (nthZ_range _ _ _ G0) as R0. pose proof (nthZ_range _ _ _ G2) as R2.
+    assert (Hsz : size (TOp name true [a; b]) = 3%nat) by (cbn [size fold_right]; rewrite (leaf_size a Ha), (leaf_size b Hb); reflexivity).
+    rewrite Hsz in *.
+    destruct f as [|f']; [unfold EvalDefs.need in Hf; lia|].
+    rewrite tryrun_S. unfold psize. replace (L <=? base) with false by lia.
+    unfold Run.getn. rewrite G0. cbn [kind mk]. cbv zeta. rewrite G1, G2.
+    rewrite !tleaf_leaf by assumption.
+    cbn [Tree.trysem]. rewrite Hfs.
+    destruct (tleaf_val fetch cached a) as [tr1 [va|e1]]; cbn [fst snd]; [|reflexivity].
+    destruct (tleaf_val fetch cached b) as [tr2 [vb|e2]]; cbn [fst snd]; [|cbn [bindT]; rewrite map_app; reflexivity].
+    rewrite tproxy_proxy by (right; reflexivity). rewrite bindT_preR.
+    destruct (proxy custom name true [va; vb]) as [tr3 [v|e]]; cbn [fst snd bindT].
+    - assert (Hgo : tclimb (length (nodes P)) (tryrun f') (base + 2) (mk lastI (KFast name) 2 mf mt h r) v (lenZ stk - 1) stk = KR v).
+      { rewrite Hs. unfold lenZ in R2. destruct (length (nodes P)) as [|[|n]] eqn:En; try lia.
+        rewrite <- (app_nil_r stk). rewrite <- (Hroot v n f' [] ltac:(lia) ltac:(unfold EvalDefs.need in *; lia)).
+        rewrite tclimb_S. unfold afterT, tmatch. rewrite tflag_mk. destruct (tmatches r v) eqn:Em.
+        - unfold climbP at 1. unfold parent_of. rewrite Q2. replace (base =? -1) with false by lia. unfold Run.getn. rewrite G0.
+          cbn [kind mk is_cond_kind andb osTop]. rewrite tclimb_S. unfold tmatch. rewrite tflag_mk, Em. unfold parent_of. rewrite Q0. reflexivity.
+        - replace (base + 2 + 1) with (base + Z.of_nat 3) by lia. reflexivity. }
+      rewrite Hgo, preM_app, !map_app, <- app_assoc. reflexivity.
+    - rewrite !map_app. unfold preM. cbn [fst snd]. rewrite <- app_assoc. reflexivity.
+  Qed.
+
+  (* ---------- operators ---------- *)
+
+  Lemma bindT_targs_cons name c cs' acc K :
+    bindT (trysem_args name (c :: cs') acc) K =
+    bindT (trysem c) (fun v => if tmatches (op_kind name) v then K v else bindT (trysem_args name cs' (v :: acc)) K).
+  Proof.
+    cbn [Tree.trysem_args]. destruct (trysem c) as [tr [v|e]]; [|reflexivity].
+    unfold bindT at 2. cbv beta. destruct (tmatches (op_kind name) v).
+    - reflexivity.
+    - rewrite bindT_preR. reflexivity.
+  Qed.
+
+  Lemma args_try name n ridx h_p pn r_p pidx_p KR_p stk0 (cb_p : nat) :
+    getn ridx = Some pn -> kind pn = KOp name -> childCnt pn = n -> tflag pn = r_p -> osTop pn = h_p ->
+    parent_of P ridx = Some pidx_p -> 0 <= h_p -> lenZ stk0 = h_p ->
+    (forall v cf f x, (cb_p <= cf)%nat -> (need (ridx + 1) <= f)%nat ->
+       afterT cf (tryrun f) (ridx + 1) r_p pidx_p v h_p (stk0 ++ x) = KR_p v) ->
+    forall anc' cs, Forall sub_try cs ->
+    forall acc b f,
+      placed (nodes P) b (map fst (comp_args lastI (op_kind name) n ridx anc' cs b (h_p + lenZ acc))) ->
+      placedZ (parents P) b (map snd (comp_args lastI (op_kind name) n ridx anc' cs b (h_p + lenZ acc))) ->
+      b + Z.of_nat (sizes cs) = ridx -> 0 <= b -> lenZ acc + lenZ cs = n ->
+      (S cb_p + sizes cs <= length (nodes P))%nat ->
+      (need b <= f)%nat ->
+      tryrun f b (stk0 ++ rev acc) = bindT (trysem_args name cs acc) KR_p.
+  Proof.
+    intros Gp Kp Cp Fp OSp Pp Hh Hs0 Hroot anc' cs HF.
+    pose proof (nthZ_range _ _ _ Gp) as Rp.
+    induction HF as [|c cs' Hc _ IH]; intros acc b f Hpl Hpp Hb Hb0 Hlen Hcb Hf.
+    - cbn [sizes fold_right] in Hb. replace b with ridx in * by lia. cbn [Tree.trysem_args].
+      destruct f as [|f']; [unfold EvalDefs.need in Hf; lia|].
+      rewrite tryrun_S. unfold psize. replace (L <=? ridx) with false by lia.
+      rewrite Gp, Kp. cbv zeta. rewrite Cp.
+      assert (Hn : n = lenZ acc) by (unfold lenZ in *; cbn [length] in Hlen; lia).
+      rewrite lenZ_app. assert (Hra : lenZ (rev acc) = lenZ acc) by (unfold lenZ; rewrite rev_length; reflexivity).
+      rewrite Hra. pose proof (lenZ_nonneg acc).
+      replace ((n <? 0) || (lenZ stk0 + lenZ acc <? n)) with false by lia.
+      replace (Z.to_nat (lenZ stk0 + lenZ acc - n)) with (length stk0) by (unfold lenZ in *; lia).
+      rewrite skipn_app, skipn_all, Nat.sub_diag, firstn_app, firstn_all, Nat.sub_diag. cbn [skipn firstn app]. rewrite app_nil_r.
+      rewrite tproxy_proxy by (left; exact Kp).
+      destruct (proxy custom name false (rev acc)) as [tr [v|e]]; cbn [fst snd bindT]; [|reflexivity].
+      f_equal. replace (Z.of_nat (length stk0) - 1) with (h_p - 1) by (unfold lenZ in Hs0; lia).
+      assert (Hn1 : (1 <= length (nodes P))%nat) by (unfold lenZ in Rp; lia).
+      rewrite (go_afterT f' ridx pn v h_p stk0 r_p pidx_p Fp Pp Hn1).
+      rewrite <- (app_nil_r stk0) at 1. apply Hroot; [lia|unfold EvalDefs.need in *; lia].
+    - cbn [comp_args] in Hpl, Hpp. cbv zeta in Hpl, Hpp. rewrite map_app in Hpl, Hpp.
+      cbn [sizes fold_right] in Hb, Hcb. fold (sizes cs') in Hb, Hcb.
+      apply placed_app in Hpl. destruct Hpl as [Hpc Hprest]. rewrite lenZ_map', CompFacts.lenZ_app in Hprest || idtac.
+      apply placedZ_app in Hpp. destruct Hpp as [Hqc Hqrest].
+      unfold lenZ in Hprest at 1. rewrite map_length, comp_length in Hprest.
+      unfold lenZ in Hqrest at 1. rewrite map_length, comp_length in Hqrest.
+      pose proof (size_pos c) as Hsz.
+      rewrite bindT_targs_cons.
+      assert (Hlenstk : lenZ (stk0 ++ rev acc) = h_p + lenZ acc).
+      { rewrite lenZ_app. unfold lenZ. rewrite rev_length. unfold lenZ in Hs0. lia. }
+      assert (Hal : h_p + lenZ acc < alloc P).
+      { match type of Hpc with placed _ _ (map fst (comp ?l ?c0 ?b0 ?h0 ?i0 ?a0 ?f0 ?t0 ?p0 ?r0)) =>
+          destruct (comp_first_os l c0 b0 h0 i0 a0 f0 t0 p0 r0) as (nd0 & p0' & rest0 & E0 & Ho) end.
+        rewrite E0 in Hpc. cbn [map fst] in Hpc. apply placed_cons in Hpc. destruct Hpc as [G _]. apply SA in G. lia. }
+      eapply (Hc b (h_p + lenZ acc) false anc' _ _ ridx (op_kind name) _ (stk0 ++ rev acc) (S cb_p) Hpc Hqc).
+      + pose proof (lenZ_nonneg acc). lia.
+      + exact Hlenstk.
+      + lia.
+      + intros v cf f0 x Hcf Hf0. unfold afterT. destruct (tmatches (op_kind name) v) eqn:Em.
+        * (* the operand decides: the value is the operator's value *)
+          unfold climbP. replace (ridx =? -1) with false by lia. rewrite Gp, Kp. cbn [is_cond_kind andb].
+          destruct cf as [|cf']; [lia|]. rewrite tclimb_S. unfold tmatch. rewrite Fp, Pp, OSp.
+          rewrite <- app_assoc.
+          pose proof (Hroot v cf' f0 (rev acc ++ x) ltac:(lia)) as HR. unfold afterT in HR. unfold climbP in HR at 1.
+          apply HR. eapply Nat.le_trans; [|exact Hf0]. apply need_mono. lia.
+        * rewrite (store_ok _ _ (h_p + lenZ acc) v (stk0 ++ rev acc) x Hlenstk ltac:(pose proof (lenZ_nonneg acc); lia) Hal).
+          replace ((stk0 ++ rev acc) ++ [v]) with (stk0 ++ rev (v :: acc)) by (cbn [rev]; now rewrite app_assoc).
+          apply IH.
+          -- rewrite lenZ_cons. replace (h_p + (lenZ acc + 1)) with (h_p + lenZ acc + 1) by lia. exact Hprest.
+          -- rewrite lenZ_cons. replace (h_p + (lenZ acc + 1)) with (h_p + lenZ acc + 1) by lia. exact Hqrest.
+          -- lia.
+          -- lia.
+          -- rewrite lenZ_cons in *. rewrite lenZ_cons in Hlen. lia.
+          -- lia.
+          -- exact Hf0.
+      + exact Hf.
+  Qed.
+
+  Lemma op_try name fast cs : fast_shape fast cs = false -> Forall sub_try cs -> sub_try (TOp name fast cs).
+  Proof.
+    intros Hfs IH base h inh anc mf mt pidx r KR stk cb Hpl Hpp Hh Hs Hcb Hroot f Hf.
+    rewrite trysem_op by exact Hfs. rewrite comp_op_unfold in Hpl, Hpp by exact Hfs. rewrite map_app in Hpl, Hpp.
+    set (ridx := base + Z.of_nat (size (TOp name fast cs)) - 1) in *.
+    assert (Hsz : size (TOp name fast cs) = S (sizes cs)) by reflexivity.
+    pose proof (placed_app _ _ _ _ Hpl) as [Hpa Hpr]. pose proof (placedZ_app _ _ _ _ Hpp) as [Hqa Hqr].
+    unfold lenZ in Hpr at 1. rewrite map_length, comp_args_length in Hpr. cbn [map fst] in Hpr.
+    unfold lenZ in Hqr at 1. rewrite map_length, comp_args_length in Hqr. cbn [map snd] in Hqr.
+    apply placed_cons in Hpr. destruct Hpr as [Gr _]. apply placedZ_cons in Hqr. destruct Hqr as [Qr _].
+    replace (base + Z.of_nat (sizes cs)) with ridx in Gr, Qr by (unfold ridx; lia).
+    replace (base + Z.of_nat (size (TOp name fast cs))) with (ridx + 1) in * by (unfold ridx; lia).
+    pose proof (args_try name (lenZ cs) ridx h (mk lastI (KOp name) (lenZ cs) mf mt h r) r pidx KR stk cb
+                  Gr eq_refl eq_refl (tflag_mk _ _ _ _ _ _ _) eq_refl Qr Hh Hs Hroot (if inh then [] else (mf, mt) :: anc) cs IH [] base f) as A.
+    cbn [rev] in A. rewrite app_nil_r in A. apply A.
+    - change (lenZ (@nil value)) with 0. rewrite Z.add_0_r. exact Hpa.
+    - change (lenZ (@nil value)) with 0. rewrite Z.add_0_r. exact Hqa.
+    - unfold ridx. lia.
+    - apply placed_bound in Hpl. lia.
+    - reflexivity.
+    - lia.
+    - exact Hf.
+  Qed.
+
+  (* ---------- if ---------- *)
+
+  Definition tcond_cont (t f : tree) (KR : value -> list obs * mres) (v : value) : list obs * mres :=
+    match v with
+    | VDNE => KR VDNE
+    | VBool true => bindT (trysem t) KR
+    | VBool false => bindT (trysem f) KR
+    | _ => ([], MErr ECondNotBool)
+    end.
+
+  Lemma bindT_tif c t f KR : bindT (trysem (TIf c t f)) KR = bindT (trysem c) (tcond_cont t f KR).
+  Proof.
+    cbn [Tree.trysem]. destruct (trysem c) as [tr [v|e]]; [|reflexivity].
+    destruct v as [z|[]|s|li|ls|si|ss'| | |o]; cbn [bindT tcond_cont]; try (unfold preM; cbn; rewrite app_nil_r; reflexivity);
+      try (rewrite bindT_preR; reflexivity); reflexivity.
+  Qed.
+
+  Lemma tmatches_dne_bool b : tmatches (Some b) VDNE = false.
+  Proof. destruct b; reflexivity. Qed.
+
+  Lemma if_try c t f : sub_try c -> sub_try t -> sub_try f -> sub_try (TIf c t f).
+  Proof.
+    intros IHc IHt IHf base h inh anc mf mt pidx r KR stk cb Hpl Hpp Hh Hs Hcb Hroot fu Hfu.
+    cbn [comp] in Hpl, Hpp. cbv zeta in Hpl, Hpp. cbn [size] in Hcb.
+    set (ifidx := base + Z.of_nat (size c)) in *.
+    set (tb := ifidx + 1) in *.
+    set (fiidx := tb + Z.of_nat (size t)) in *.
+    set (fb := fiidx + 1) in *.
+    set (endidx := fb + Z.of_nat (size f) - 1) in *.
+    assert (Hnext : base + Z.of_nat (size (TIf c t f)) = fb + Z.of_nat (size f)).
+    { cbn [size]. unfold fb, fiidx, tb, ifidx. lia. }
+    rewrite Hnext in *.
+    rewrite !map_app in Hpl, Hpp. cbn [map fst snd] in Hpl, Hpp.
+    apply placed_app in Hpl. destruct Hpl as [Hpc Hpl]. unfold lenZ in Hpl at 1. rewrite map_length, comp_length in Hpl. fold ifidx in Hpl.
+    apply placed_cons in Hpl. destruct Hpl as [Gif Hpl]. fold tb in Hpl.
+    apply placed_app in Hpl. destruct Hpl as [Hpt Hpl]. unfold lenZ in Hpl at 1. rewrite map_length, comp_length in Hpl. fold fiidx in Hpl.
+    apply placed_cons in Hpl. destruct Hpl as [Gfi Hpf]. fold fb in Hpf.
+    apply placedZ_app in Hpp. destruct Hpp as [Hqc Hpp]. unfold lenZ in Hpp at 1. rewrite map_length, comp_length in Hpp. fold ifidx in Hpp.
+    apply placedZ_cons in Hpp. destruct Hpp as [Qif Hpp]. fold tb in Hpp.
+    apply placedZ_app in Hpp. destruct Hpp as [Hqt Hpp]. unfold lenZ in Hpp at 1. rewrite map_length, comp_length in Hpp. fold fiidx in Hpp.
+    apply placedZ_cons in Hpp. destruct Hpp as [Qfi Hqf]. fold fb in Hqf.
+    pose proof (nthZ_range _ _ _ Gif) as Rif. pose proof (nthZ_range _ _ _ Gfi) as Rfi.
+    pose proof (size_pos c). pose proof (size_pos t). pose proof (size_pos f).
+    pose proof (placed_bound _ _ _ Hpc) as [Hb0 _].
+    set (IFN := mk lastI KIf 4 mf fiidx (h - 1) r) in *.
+    match type of Gfi with nthZ _ _ = Some ?x => set (FIN := x) in * end.
+    assert (KI : kind IFN = KIf) by reflexivity. assert (TI : tflag IFN = r) by apply tflag_mk.
+    assert (OI : osTop IFN = h - 1) by reflexivity. assert (SI : scIdx IFN = fiidx) by reflexivity.
+    assert (KF : kind FIN = KFi) by reflexivity. assert (OF : osTop FIN = h) by reflexivity. assert (SF : scIdx FIN = endidx) by reflexivity.
+    assert (Hal : h < alloc P) by (pose proof (SA _ _ Gfi) as A; rewrite OF in A; exact A).
+    (* the last node of the false branch *)
+    assert (Ge : exists e, getn endidx = Some e /\ osTop e = h).
+    { match type of Hpf with placed _ _ (map fst (comp ?l ?c0 ?b0 ?h0 ?i0 ?a0 ?f0 ?t0 ?p0 ?r0)) =>
+        destruct (comp_last_os l c0 b0 h0 i0 a0 f0 t0 p0 r0) as (front & e & pe & Ee & Ho);
+        pose proof (comp_length l c0 b0 h0 i0 a0 f0 t0 p0 r0) as Lf end.
+      rewrite Ee in Hpf, Lf. rewrite map_app in Hpf. apply placed_app in Hpf. destruct Hpf as [_ Hpe].
+      cbn [map fst] in Hpe. apply placed_cons in Hpe. destruct Hpe as [Ge _]. exists e. split; [|exact Ho].
+      rewrite app_length in Lf. cbn [length] in Lf. unfold lenZ in Ge. rewrite map_length in Ge.
+      replace (fb + Z.of_nat (length front)) with endidx in Ge by (unfold endidx; lia). exact Ge. }
+    destruct Ge as (e & Ge & Hoe). unfold Run.getn in Ge.
+    (* a deciding value of a branch climbs through the if node to the if's parent *)
+    assert (HM : forall cf k v' s, tmatches r v' = true ->
+              climbP (S cf) k (Some ifidx) v' s = climbP cf k (Some pidx) v' s).
+    { intros cf k v' s Hm. unfold climbP at 1. replace (ifidx =? -1) with false by lia. unfold Run.getn. rewrite Gif.
+      rewrite KI. cbn [is_cond_kind]. unfold tmatch. rewrite TI, Hm. cbn [negb andb].
+      rewrite tclimb_S. unfold tmatch. rewrite TI, Hm. unfold parent_of. rewrite Qif. reflexivity. }
+    assert (HrootM : forall v' cf f0 x, tmatches r v' = true -> (S cb <= cf)%nat -> (need (fb + Z.of_nat (size f)) <= f0)%nat ->
+              climbP cf (tryrun f0) (Some ifidx) v' (stk ++ x) = KR v').
+    { intros v' cf f0 x Hm Hcf Hf0. destruct cf as [|cf']; [lia|]. rewrite HM by exact Hm.
+      rewrite <- (Hroot v' cf' f0 x ltac:(lia) Hf0). unfold afterT. rewrite Hm. reflexivity. }
+    assert (HrootN : forall v' f0, tmatches r v' = false -> (need (fb + Z.of_nat (size f)) <= f0)%nat ->
+              tryrun f0 (fb + Z.of_nat (size f)) (stk ++ [v']) = KR v').
+    { intros v' f0 Hm Hf0. rewrite <- (Hroot v' cb f0 [] ltac:(lia) Hf0). unfold afterT. rewrite Hm.
+      rewrite (store_ok _ _ h v' stk [] Hs Hh Hal). reflexivity. }
+    rewrite bindT_tif.
+    eapply (IHc base h false [] fnone (root_idx c base) ifidx None _ stk (S cb) Hpc Hqc Hh Hs).
+    - lia.
+    - fold ifidx. intros v cf f0 x Hcf Hf0. unfold afterT. cbn [tmatches].
+      destruct (is_dne v) eqn:Ed.
+      + (* the condition is unknown: so is the if *)
+        destruct v; try discriminate. cbn [tcond_cont].
+        destruct r as [bb|].
+        * unfold climbP. replace (ifidx =? -1) with false by lia. unfold Run.getn. rewrite Gif.
+          rewrite KI. cbn [is_cond_kind]. unfold tmatch. rewrite TI, tmatches_dne_bool. cbn [negb andb].
+          rewrite SI, Gfi. cbv zeta. rewrite SF, Ge, Hoe.
+          replace (endidx + 1) with (fb + Z.of_nat (size f)) by (unfold endidx; lia).
+          rewrite <- (Hroot VDNE cf f0 x ltac:(lia) ltac:(eapply Nat.le_trans; [|exact Hf0]; apply need_mono; unfold fb, fiidx, tb; lia)).
+          unfold afterT. rewrite tmatches_dne_bool. reflexivity.
+        * apply HrootM; [reflexivity|exact Hcf|]. eapply Nat.le_trans; [|exact Hf0]. apply need_mono. unfold fb, fiidx, tb. lia.
+      + rewrite (store_ok _ _ h v stk x Hs Hh Hal).
+        destruct f0 as [|f1]; [unfold EvalDefs.need in Hf0; lia|].
+        rewrite tryrun_S. unfold psize. replace (L <=? ifidx) with false by lia.
+        unfold Run.getn. rewrite Gif, KI. rewrite rev_app_distr. cbn [rev app].
+        destruct v as [z|[]|s|li|ls|si|ss'| | |o]; cbn [tcond_cont]; try reflexivity; try discriminate.
+        * (* true *)
+          rewrite rev_involutive. fold tb.
+          eapply (IHt tb h true [] _ _ ifidx r KR stk (S cb) Hpt Hqt Hh Hs).
+          -- lia.
+          -- fold fiidx. intros v' cf' f2 x' Hcf' Hf2. unfold afterT. destruct (tmatches r v') eqn:Em.
+             ++ apply HrootM; [exact Em|exact Hcf'|]. eapply Nat.le_trans; [|exact Hf2]. apply need_mono. unfold fb. lia.
+             ++ rewrite (store_ok _ _ h v' stk x' Hs Hh Hal).
+                destruct f2 as [|f3]; [unfold EvalDefs.need in Hf2; lia|].
+                rewrite tryrun_S. unfold psize. replace (L <=? fiidx) with false by lia.
+                unfold Run.getn. rewrite Gfi, KF, OF, SF.
+                destruct (stk ++ [v']) eqn:Es'; [destruct stk; discriminate|]. rewrite <- Es'.
+                rewrite lenZ_app. change (lenZ [v']) with 1.
+                replace ((h + 1 <? 0) || (lenZ stk + 1 <? h + 1)) with false by lia.
+                replace (h + 1) with (lenZ (stk ++ [v'])) by (rewrite lenZ_app; change (lenZ [v']) with 1; lia).
+                rewrite firstnZ_all. replace (endidx + 1) with (fb + Z.of_nat (size f)) by (unfold endidx; lia).
+                apply (HrootN v' f3); [exact Em|]. unfold EvalDefs.need in *. unfold fb in *. lia.
+          -- unfold EvalDefs.need in *. unfold tb. lia.
+        * (* false *)
+          rewrite OI, SI. rewrite rev_involutive.
+          assert (Hlr : lenZ (rev stk) = h) by (unfold lenZ in *; rewrite rev_length; exact Hs).
+          replace ((h - 1 + 1 <? 0) || (lenZ (rev stk) <? h - 1 + 1)) with false by lia.
+          replace (h - 1 + 1) with (lenZ stk) by lia. rewrite firstnZ_all. fold fb.
+          eapply (IHf fb h true [] _ _ ifidx r KR stk (S cb) Hpf Hqf Hh Hs).
+          -- lia.
+          -- intros v' cf' f2 x' Hcf' Hf2. unfold afterT. destruct (tmatches r v') eqn:Em.
+             ++ apply HrootM; [exact Em|exact Hcf'|exact Hf2].
+             ++ rewrite (store_ok _ _ h v' stk x' Hs Hh Hal). apply (HrootN v' f2); [exact Em|exact Hf2].
+          -- unfold EvalDefs.need in *. unfold fb, fiidx, tb in *. lia.
+    - exact Hfu.
+  Qed.
+
+  Theorem try_all : forall t, sub_try t.
+  Proof.
+    induction t as [v|n k|name fast cs IH|c t f IHc IHt IHf] using tree_ind2.
+    - apply leaf_try. reflexivity.
+    - apply leaf_try. reflexivity.
+    - destruct (fast_shape fast cs) eqn:Hfs.
+      + destruct (fast_shape_inv _ _ Hfs) as (a & b & -> & Ha & Hb & ->). apply fast_try. exact Hfs.
+      + apply op_try; assumption.
+    - apply if_try; assumption.
+  Qed.
 End M.
+
+(* ---------- T-TRY, machine level ---------- *)
+
+Theorem tryrun_compile_correct fetch custom cached t :
+  tryeval fetch custom cached (compile t) = sem_obs (trysem fetch custom cached t).
+Proof.
+  set (P := compile t).
+  pose proof (try_all fetch custom cached P (compile_alloc t) t 0 0 false [] fnone (root_idx t 0) (-1) None
+                (fun v => ([], MVal v)) [] 0%nat) as H.
+  unfold tryeval. rewrite H.
+  - unfold sem_obs, bindT. destruct (trysem fetch custom cached t) as [tr [v|e]]; cbn [fst snd]; [|reflexivity].
+    unfold preM. cbn [fst snd]. rewrite app_nil_r. reflexivity.
+  - exists [], []. split; [|reflexivity]. rewrite app_nil_r. cbn [app].
+    unfold lastI. unfold P. rewrite compile_len. apply compile_nodes.
+  - exists [], []. split; [|reflexivity]. rewrite app_nil_r. cbn [app].
+    unfold lastI. unfold P. rewrite compile_len. reflexivity.
+  - lia.
+  - reflexivity.
+  - unfold P. rewrite compile_nodes, map_length, comp_length. lia.
+  - intros v cf f x _ Hf. rewrite Z.add_0_l. unfold afterT. cbn [tmatches]. destruct (is_dne v) eqn:Ed.
+    + reflexivity.
+    + pose proof (alloc_pos t) as Ha. fold P in Ha.
+      rewrite (store_ok P _ _ 0 v [] x eq_refl ltac:(lia) ltac:(lia)). cbn [app].
+      destruct f as [|f']; [unfold need in Hf; lia|].
+      rewrite tryrun_S. unfold psize, P. rewrite compile_len. replace (Z.of_nat (size t) <=? Z.of_nat (size t)) with true by lia.
+      reflexivity.
+  - unfold need, P. rewrite compile_len. unfold lenZ. fold P.
+    assert (length (nodes P) = size t) by (unfold P; rewrite compile_nodes, map_length, comp_length; reflexivity). lia.
+Qed.
+
+Print Assumptions tryrun_compile_correct.
